@@ -8,6 +8,7 @@ from ..monitors import build, exc_outcome
 from ..runner import Lane, PASS, FAIL, Stats, digest, jsonable
 
 PROPERTY = 'C13'
+QUICK_SCALE = 1.0      # the enumerated lane dominates the quick tier of this property
 
 RULE = ('Time-stamp sequences t0 + sum(gaps), each gap = P*(1+k/16), k in [-15,32], P = sampling period expressed in the default '
         'unit; (period value, period unit, default unit) drawn from the combinations whose ratio is a dyadic rational (exact in '
